@@ -29,6 +29,8 @@ import itertools
 import json
 import os
 
+import numpy as np
+
 from .. import sysgen as G
 from .. import common
 
@@ -54,6 +56,10 @@ S_DDD = {"name": "DDD", "residues": [["DA", ["D1"]], ["DB", ["E1", "E2"]], ["DA"
 S_EEE = {"name": "EEEEE", "residues": [["E1", _names("X", 4)], ["E2", _names("Y", 1)], ["E3", _names("Z", 2)],
                                       ["E2", _names("Y", 1)]]}
 S_W = {"name": "W", "residues": [["W", ["W"]]]}
+# atom names that REPEAT inside a residue, the first one included (PEG beads EO EO EO, a diol OH C1 C2 OH): a residue
+# ends where (number, name) changes, not where a name comes round again (seed C11-8)
+S_PEG = {"name": "PEG3", "residues": [["PEG", ["EO", "EO", "EO"]]]}
+S_DIOL = {"name": "DIOL", "residues": [["DOL", ["OH", "C1", "C2", "OH"]], ["DOL", ["OH", "C1", "C2", "OH"]]]}
 
 EXH = [S_AAA, S_BBB, S_CCC, S_SOL]
 
@@ -89,8 +95,8 @@ def generate(ctx):
                "species": EXH, "blocks": [0, 0] + [1] * nrun + [2, 0], "load": [1, 0, 2],
                "ops": [["it"], ["g", 1030], ["g", -1], ["g", 1024], ["s", 1020, 1030, None], ["s", None, None, 257]]}
     # ---- random longer systems
-    table = [S_AAA, S_BBB, S_CCC, S_DDD, S_EEE, S_SOL, S_W]
-    loadable = [0, 1, 2, 3, 4]
+    table = [S_AAA, S_BBB, S_CCC, S_DDD, S_EEE, S_SOL, S_W, S_PEG, S_DIOL]
+    loadable = [0, 1, 2, 3, 4, 7, 8]
     foreign = [["ION", ["NA"]], ["AAA", ["A1", "A2"]], ["CR", ["R1"]], ["XYZ", _names("Q", 5)], ["DB", ["E1"]]]
     for i in range(ctx.n(500, 12000)):
         nb = rng.randint(5, 40) if rng.random() < 0.7 else rng.randint(41, 120)
@@ -334,9 +340,17 @@ def evaluate(ctx, case):
                 if listed is None:
                     listed = r
             elif op[0] == "g":
-                r = [_mol_view(sysm, sysm[int(op[1])], None)]
+                got = sysm[int(op[1])]
+                r = [_mol_view(sysm, got, None)]
+                # the molecule handed out is the caller's to modify: it is moved here; the system must hand out the
+                # FILE's coordinates again next time (seed C11-7: parsed residues cached per index + a copy that
+                # adopts the residues it is given)
+                got.move(np.array([0.5, -1.5, 2.0]))
             else:
-                r = [_mol_view(sysm, m, None) for m in sysm[slice(op[1], op[2], op[3])]]
+                gots = sysm[slice(op[1], op[2], op[3])]
+                r = [_mol_view(sysm, m, None) for m in gots]
+                for m in gots[:3]:
+                    m.move(np.array([-1.0, 0.25, 0.75]))
             results.append(("M", r))
         except Exception as e:
             results.append(("E", G.err_name(e)))
